@@ -178,7 +178,8 @@ def classify_phase(prop, spec, ph, crashed_expected=False):
             return [], other, 'exception inside the harness: ' + tr[-800:]
         # C05/C06/C07 speak about what every mini-batch emits: an exception raised after the streaming phase
         # (3MR post-processing, summaries) is outside their statements and only counted
-        downstream = prop in ('C05', 'C06', 'C07') and v.get('stream_returned')
+        downstream = (prop in ('C05', 'C06', 'C07') and v.get('stream_returned')) or \
+            (prop == 'C13' and task == 'identify_rare_values' and v.get('rare_report_ok'))   # report complete and exact; the later sparsity summary is outside the statement
         if downstream:
             other['downstream-exception:' + exception_key(tr)[:80]] = 1
         elif not benign:
